@@ -482,7 +482,7 @@ func generateProtectedHeaders(req *signature.SignRequest, protected cose.Protect
 			// even be usable as a map key
 			return &signature.InvalidSignRequestError{Msg: fmt.Sprintf("extended attribute key of type %T is not supported: require int / tstr type", elm.Key)}
 		}
-		if _, ok := protected[elm.Key]; ok {
+		if _, ok := protected[elm.Key]; ok || isSystemHeaderLabel(elm.Key) {
 			return &signature.InvalidSignRequestError{Msg: fmt.Sprintf("%q already exists in the protected header", elm.Key)}
 		}
 		if elm.Critical {
@@ -505,6 +505,41 @@ func isValidHeaderLabel(key any) bool {
 		return true
 	}
 	return false
+}
+
+// isSystemHeaderLabel checks if the key is a header label that is defined by
+// the COSE envelope specification and thus cannot be an extended attribute.
+func isSystemHeaderLabel(key any) bool {
+	var label int64
+	switch k := key.(type) {
+	case string:
+		return k == headerLabelExpiry || k == headerLabelSigningScheme ||
+			k == headerLabelSigningTime || k == headerLabelAuthenticSigningTime
+	case int:
+		label = int64(k)
+	case int8:
+		label = int64(k)
+	case int16:
+		label = int64(k)
+	case int32:
+		label = int64(k)
+	case int64:
+		label = k
+	case uint:
+		label = int64(k)
+	case uint8:
+		label = int64(k)
+	case uint16:
+		label = int64(k)
+	case uint32:
+		label = int64(k)
+	case uint64:
+		label = int64(k)
+	default:
+		return false
+	}
+	return label == cose.HeaderLabelAlgorithm || label == cose.HeaderLabelCritical ||
+		label == cose.HeaderLabelContentType
 }
 
 // generateUnprotectedHeaders creates Unprotected Headers of the COSE envelope
